@@ -8,6 +8,19 @@ From FV Require Import Base.Bytes Merkle.SparseSpec Merkle.SparseFun Merkle.Spar
   Merkle.SparseDelete.
 Open Scope N_scope.
 
+(* Ord on keys as bit lists (false < true), the order BTreeMap uses on Bytes32 *)
+Fixpoint bits_compare (a b : key) : comparison :=
+  match a, b with
+  | [], [] => Eq
+  | [], _ :: _ => Lt
+  | _ :: _, [] => Gt
+  | x :: a', y :: b' => match x, y with
+                        | false, true => Lt
+                        | true, false => Gt
+                        | _, _ => bits_compare a' b'
+                        end
+  end.
+
 Section History.
   Context {Dg : Type} (IF : smt_iface Dg).
   Notation dg_eqb := (i_eqb IF).
@@ -79,7 +92,7 @@ Section History.
     wf_map 256 m /\ t_root T = node_of [] (build 256 m) /\ stored (t_store T) [] (build 256 m).
 
   Lemma persisted_tree T m : persisted T m -> T = tree_of (t_store T) (build 256 m).
-  Proof. destruct T as [rt st]. cbn. intros [_ [-> _]]. reflexivity. Qed.
+  Proof. destruct T as [rt st]. unfold persisted. cbn [t_root t_store]. intros [_ [-> _]]. reflexivity. Qed.
 
   Lemma persisted_tree_of st m : wf_map 256 m -> stored st [] (build 256 m) -> persisted (tree_of st (build 256 m)) m.
   Proof. intros Hwf Hs. split; [exact Hwf|]. split; [reflexivity | exact Hs]. Qed.
@@ -162,5 +175,44 @@ Section History.
     - rewrite E1. eapply IH; eauto.
     - rewrite E1. eapply IH; eauto.
     - rewrite (step_load_id T m Hp). eapply IH; eauto.
+  Qed.
+
+  (* ---------------------------------------------------------------- C14: generate_proof *)
+  Notation inclusion_verify := (inclusion_verify dg_eqb hleaf hnode sum kbit).
+  Notation exclusion_verify := (exclusion_verify dg_eqb zero hleaf hnode kbit).
+  Notation spec_sides := (spec_sides zero shleaf hnode 256 []).
+
+  Theorem generate_proof_correct T m key :
+    persisted T m -> length (bits key) = 256%nat ->
+    match m_get m (bits key) with
+    | Some v =>
+        generate_proof T key = Ok (Inclusion (rev (spec_sides (bits key) m))) /\
+        (forall value, sum value = v ->
+           inclusion_verify (rev (spec_sides (bits key) m)) (tree_root T) key value = Some true)
+    | None =>
+        generate_proof T key = Ok (Exclusion (rev (spec_sides (bits key) m)) (exl IF (spec_terminal 256 [] (bits key) m))) /\
+        exclusion_verify (rev (spec_sides (bits key) m)) (exl IF (spec_terminal 256 [] (bits key) m)) (tree_root T) key = Some true
+    end.
+  Proof.
+    intros Hp Hk. pose proof (persisted_tree T m Hp) as E. pose proof (persisted_root T m Hp) as Er.
+    destruct Hp as [Hwf [_ Hs]]. pose proof (cwf_build 256 m Hwf) as Hc.
+    assert (generate_proof T key = generate_proof (tree_of (t_store T) (build 256 m)) key) as Eg by (rewrite <- E; reflexivity).
+    rewrite Eg, (generate_proof_td IF (t_store T) (build 256 m) key Hs Hc Hk).
+    rewrite (c_get_build 256 (bits key) m Hwf Hk), (c_sides_build zero shleaf hnode 256 [] (bits key) m Hwf Hk),
+      (c_terminal_build 256 [] (bits key) m Hwf Hk), Er.
+    destruct (m_get m (bits key)) as [v|] eqn:Eget.
+    - split; [reflexivity|]. intros value Hv.
+      destruct (inclusion_verify_spec dg_eqb hleaf hnode sum kbit bits of_bits (i_eqb_spec IF) (i_kbit_spec IF) (i_of_bits_bits IF)
+                  (rev (spec_sides (bits key) m)) (smt_root m) key value Hk) as [b [Eb Hb]].
+      rewrite Eb. f_equal. apply Hb. rewrite Hv. apply spec_incl_complete; assumption.
+    - split; [reflexivity|].
+      destruct (exclusion_verify_spec dg_eqb zero hleaf hnode kbit bits of_bits (i_eqb_spec IF) (i_kbit_spec IF) (i_of_bits_bits IF)
+                  (rev (spec_sides (bits key) m)) (exl IF (spec_terminal 256 [] (bits key) m)) (smt_root m) key Hk) as [b [Eb Hb]].
+      rewrite Eb. f_equal. apply Hb.
+      assert (xl bits (exl IF (spec_terminal 256 [] (bits key) m)) = spec_terminal 256 [] (bits key) m) as ->.
+      { pose proof (spec_terminal_length 256 [] (bits key) m Hwf Hk) as Hl.
+        destruct (spec_terminal 256 [] (bits key) m) as [k' v'|]; [|reflexivity].
+        cbn [exl xl]. rewrite (i_bits_of_bits IF) by exact Hl. reflexivity. }
+      apply spec_excl_complete; assumption.
   Qed.
 End History.
